@@ -5,6 +5,7 @@ import (
 
 	"github.com/bronlabs/errs-go/errs"
 
+	"github.com/bronlabs/bron-crypto/pkg/base/curves"
 	"github.com/bronlabs/bron-crypto/pkg/base/serde"
 )
 
@@ -32,6 +33,9 @@ func (p *Point) UnmarshalCBOR(data []byte) error {
 	if err != nil {
 		return errs.Wrap(err).WithMessage("failed to unmarshal point")
 	}
+	if dto == nil {
+		return curves.ErrSerialisation.WithMessage("Point DTO is nil")
+	}
 
 	pp, err := NewCurve().FromUncompressed(dto.AffineUnompressedBytes)
 	if err != nil {
@@ -52,6 +56,9 @@ func (p *PrimeSubGroupPoint) UnmarshalCBOR(data []byte) error {
 	dto, err := serde.UnmarshalCBOR[*pointDTO](data)
 	if err != nil {
 		return errs.Wrap(err).WithMessage("failed to unmarshal point")
+	}
+	if dto == nil {
+		return curves.ErrSerialisation.WithMessage("PrimeSubGroupPoint DTO is nil")
 	}
 
 	pp, err := NewPrimeSubGroup().FromUncompressed(dto.AffineUnompressedBytes)
